@@ -9,6 +9,9 @@ use crate::world::World;
 
 #[derive(Clone, Debug)]
 pub struct Profile {
+    /// a very long history of one kind, for whatever is kept in a bounded or ever-growing list ("funding": hundreds of
+    /// settlements on one vAMM; "feed": hundreds of rounds under one key; "blocks": more than a thousand trading blocks)
+    pub marathon: Option<&'static str>,
     /// many consecutive busy blocks (C18: more snapshots inside one TWAP window than any short history has)
     pub long_busy: bool,
     pub prop: String,
@@ -23,6 +26,7 @@ pub struct Profile {
 
 pub fn profile_for(prop: &str) -> Profile {
     let mut p = Profile {
+        marathon: None,
         long_busy: false,
         prop: prop.to_string(),
         min_steps: 30,
@@ -380,6 +384,13 @@ impl Gen {
         if rng.chance(self.profile.p_same_block_burst.0, self.profile.p_same_block_burst.1) {
             self.burst_left = rng.range(1, 6) as u32;
         }
+        match self.profile.marathon {
+            // a day per step: every settlement is due again
+            Some("funding") => return Some((1, 86_400)),
+            // one trading block after the other, now and then two trades in one block
+            Some("blocks") => return if rng.chance(1, 12) { None } else { Some((1, *rng.pick(&[1u64, 5, 15, 60]))) },
+            _ => {}
+        }
         if self.profile.long_busy {
             if self.profile.prop != "C18" {
                 // a few seconds per block: hundreds of blocks inside a 15-minute window
@@ -663,7 +674,7 @@ impl Gen {
             }
         }
         let v = self.pick_vamm(r, rng);
-        if rng.chance(2, 5) {
+        if rng.chance(2, 5) || (self.profile.marathon == Some("funding") && rng.chance(9, 10)) {
             let actor = *rng.pick(&["keeper", "stranger", "liquidator", "trader0"]);
             return Step::new(actor, Op::PayFunding { vamm: v });
         }
